@@ -293,7 +293,10 @@ class ExplorerScriptSsbCompiler:
     ) -> dict[str, ExplorerScriptMacro]:
         """Updates path information of all of the macros. See the field descriptions for more details"""
         for macro in macros.values():
-            macro.included__absolute_path = subfile_path
-            if basefile_path is not None:
+            if basefile_path is None:
+                macro.included__absolute_path = subfile_path
+            elif macro.included__relative_path is None:
+                # Macros that the sub-file imported itself already carry the paths of the file they are defined in.
+                macro.included__absolute_path = subfile_path
                 macro.included__relative_path = os.path.relpath(subfile_path, os.path.dirname(basefile_path))
         return macros
